@@ -147,7 +147,7 @@ Proof.
     + rewrite (buf_bool_beq _ _ E). destruct (buf_bool b2); constructor; auto.
   - match goal with |- context [c_role ?X] => destruct (c_role X) end.
     + match goal with |- context [if ?X then _ else _] => destruct X end; constructor; auto.
-    + constructor; auto.
+    + match goal with |- context [if ?X then _ else _] => destruct X end; constructor; auto.
 Qed.
 
 Lemma eom_cong c b1 b2 : beq b1 b2 -> buf_inv b1 -> buf_inv b2 -> sres_eq (end_of_message c b1) (end_of_message c b2).
@@ -406,13 +406,10 @@ Definition hd (c : conn) (b : rbuf) (x : bytes) : triple :=
 Definition K (r : sres) (x : bytes) : triple :=
   match r with Go c b o => pre o (ev c (buf_add b x)) | Stop c b o => pre o (hd c b x) end.
 
-(* the two places where the code itself depends on the cut (findings): bytes following a switch to passthrough are
-   lstripped only if already buffered; a client connection whose response ended before its request (streaming)
-   runs the finished body reader again on new data *)
-Definition early (c : conn) : Prop :=
-  c_role c = Client /\ c_state c = ReadBody /\ c_response_done c = true /\ c_request_done c = false.
+(* the one place where the code itself depends on the cut (finding): bytes following a switch to passthrough are
+   lstripped only if already buffered *)
 Definition ok_stop (c : conn) (x : bytes) : Prop :=
-  (c_state c = Passthrough -> lstrip_crlf x = x) /\ ~ early c.
+  c_state c = Passthrough -> lstrip_crlf x = x.
 Definition guard (r : sres) (x : bytes) : Prop :=
   match r with Stop c _ _ => ok_stop c x | Go _ _ _ => True end.
 
@@ -504,7 +501,7 @@ Proof.
     destruct (c_response c1) as [response|]; [|apply closed_pattern; reflexivity].
     destruct (after (c_role c1) request response).
     + destruct (make_pipe_stop c1 b) as (c' & b' & o & E). rewrite E in G.
-      pose proof (make_pipe_conn _ _ _ _ _ E) as Ec. simpl in G. destruct G as [G _].
+      pose proof (make_pipe_conn _ _ _ _ _ E) as Ec. simpl in G.
       apply make_pipe_M; auto. apply G. rewrite Ec. reflexivity.
     + apply closed_pattern. reflexivity.
     + rewrite (buf_bool_add b x Hx). destruct (buf_bool b).
@@ -515,10 +512,10 @@ Proof.
       { unfold c1. simpl. rewrite (Hrq Er). apply orb_true_r. }
       rewrite Hq. rewrite Hq in Eb. destruct (c_response_done c1); [discriminate Eb|]. cbn [andb negb].
       eapply quiet_pattern; eauto.
-    + exfalso. simpl in G. destruct G as [_ G]. apply G. unfold early.
-      assert (Hq : c_response_done c1 = true).
+    + assert (Hq : c_response_done c1 = true).
       { unfold c1. simpl. rewrite (Hrs Er). apply orb_true_r. }
-      rewrite Hq in Eb. rewrite andb_true_r in Eb. auto.
+      rewrite Hq. rewrite Hq in Eb. destruct (c_request_done c1); [discriminate Eb|]. cbn [andb negb].
+      eapply quiet_pattern; eauto.
 Qed.
 
 Lemma eom_unfold c b :
